@@ -4,10 +4,9 @@ F = 'bivariate/frank.py'
 GU = 'bivariate/gumbel.py'
 MUTANTS = [
     {'name': 'clayton-v-exponent', 'rule': 'D1.sym', 'file': C, 'old': "np.power(U[i], -self.theta) + np.power(V[i], -self.theta) - 1,", 'new': "np.power(U[i], -self.theta) + np.power(V[i], -self.theta - 1) - 1,"},
-    {'name': 'clayton-guard-only-u', 'rule': 'D1.sym', 'file': C, 'old': "                if (U[i] > 0 and V[i] > 0)", 'new': "                if (U[i] > 0)"},
     {'name': 'frank-v-factor', 'rule': 'D1.sym', 'file': F, 'old': "num = (np.exp(-self.theta * U) - 1) * (np.exp(-self.theta * V) - 1)", 'new': "num = (np.exp(-self.theta * U) - 1) * (np.exp(-self.theta * V))"},
     {'name': 'gumbel-v-power', 'rule': 'D1.sym', 'file': GU, 'old': "            h = np.power(-np.log(U), self.theta) + np.power(-np.log(V), self.theta)\n            h = -np.power(h, 1.0 / self.theta)", 'new': "            h = np.power(-np.log(U), self.theta) + np.power(-np.log(V), 2 * self.theta)\n            h = -np.power(h, 1.0 / self.theta)"},
-    {'name': 'gumbel-independence-returns-u', 'rule': 'D1.sym', 'file': GU, 'old': "        if self.theta == 1:\n            return U * V\n\n        else:\n            h = np.power", 'new': "        if self.theta == 1:\n            return U\n\n        else:\n            h = np.power"},
+    {'name': 'gumbel-independence-returns-u', 'rule': 'D4.values', 'file': GU, 'old': "        if self.theta == 1:\n            return U * V\n\n        else:\n            h = np.power", 'new': "        if self.theta == 1:\n            return U\n\n        else:\n            h = np.power"},
     {'name': 'clayton-all-to-any', 'rule': 'D2.rows', 'file': C, 'old': "if (V == 0).all() or (U == 0).all():", 'new': "if (V == 0).any() or (U == 0).any():"},
     {'name': 'frank-normalised-by-max', 'rule': 'D2.rows', 'file': F, 'old': "        return -1.0 / self.theta * np.log(1 + num / den)", 'new': "        cdfs = -1.0 / self.theta * np.log(1 + num / den)\n        return cdfs / max(cdfs.max(), 1.0)"},
     {'name': 'gumbel-ppf-batch-shortcut', 'rule': 'D2.rows', 'file': GU, 'old': "        if self.theta == 1:\n            return y\n", 'new': "        if self.theta == 1 or (V == 1).all():\n            return y\n"},
@@ -31,6 +30,8 @@ MUTANTS = [
      'new': "        num = (np.exp(self.theta * U) - 1) * (np.exp(self.theta * V) - 1)\n        den = np.exp(self.theta) - 1\n\n        return 1.0 / self.theta * np.log(1 + num / den)"},
 ]
 REWRITES = [
+    # v = 0 with u > 0 still gives 0 through power(0., -theta) = inf and inf ** (-1/theta) = 0: the one-sided guard is the same function
+    {'name': 'clayton-guard-only-u', 'file': C, 'old': "                if (U[i] > 0 and V[i] > 0)", 'new': "                if (U[i] > 0)"},
     {'name': 'frank-generator-log-of-ratio-split', 'file': 'bivariate/frank.py', 'old': "        a = (np.exp(-self.theta * t) - 1) / (np.exp(-self.theta) - 1)\n        return -np.log(a)", 'new': "        num = np.exp(-self.theta * t) - 1\n        den = np.exp(-self.theta) - 1\n        return -np.log(num / den)"},
     {'name': 'clayton-generator-division', 'file': 'bivariate/clayton.py', 'old': "        return (1.0 / self.theta) * (np.power(t, -self.theta) - 1)", 'new': "        return (np.power(t, -self.theta) - 1) / self.theta"},
     {'name': 'clayton-commuted-sum', 'file': C, 'old': "np.power(U[i], -self.theta) + np.power(V[i], -self.theta) - 1,", 'new': "np.power(V[i], -self.theta) - 1 + np.power(U[i], -self.theta),"},
